@@ -67,17 +67,142 @@ def find_loops(prog):
     return out
 
 
-def some_edge_of(prog, body, call_block, label="Some"):
-    """(switch_block, target) edges taken when the result of the call in call_block is `label`."""
+PREDICATES = {"Some": (r"Option::<T>::is_some$", r"Option::<T>::is_none$"), "None": (r"Option::<T>::is_none$", r"Option::<T>::is_some$"),
+              "Ok": (r"Result::<T, E>::is_ok$", r"Result::<T, E>::is_err$"), "Err": (r"Result::<T, E>::is_err$", r"Result::<T, E>::is_ok$")}
+
+
+OTHER = {"Some": "None", "None": "Some", "Ok": "Err", "Err": "Ok"}
+TRY_LABEL = {"Some": "Continue", "Ok": "Continue", "None": "Break", "Err": "Break"}
+
+
+def _definitely(body, d, label):
+    """Is the definition d (block, idx, kind, payload) certainly a value of variant `label`?"""
+    if d[2] == "call":
+        t = d[3]
+        name = t.get("resolved") or t.get("callee") or ""
+        if name.endswith("FromResidual<std::option::Option<std::convert::Infallible>>>::from_residual"):
+            return label == "None"
+        if core.re.search(r"FromResidual<std::result::Result<std::convert::Infallible, \w+>>>::from_residual$", name) and "result::Result<T, " in name:
+            return label == "Err"
+        return False
+    if d[2] == "assign" and not d[3]["pl"]["p"]:
+        rv = d[3]["rv"]
+        return rv["k"] == "agg" and rv.get("agg") == "adt" and rv.get("variant") == label
+    return False
+
+
+def _carriers(body, dest, label, call_block):
+    """{local: merged} — locals that hold the call's result: copies of `dest`, and merge points whose other definitions are certainly
+    the opposite variant (exact: `label` there implies the call returned it) or certainly `label` itself (merged: `label` there means
+    the call or one of those other sources produced it)."""
+    def others_ok(ds):
+        merged = False
+        for d in ds:
+            if _definitely(body, d, OTHER[label]):
+                continue
+            if _definitely(body, d, label):
+                merged = True
+                continue
+            return None
+        return merged
+    out = {dest: False}
+    # the destination itself may be written on other paths (the return place of an inlined helper)
+    extra = [d for d in body.defs().get(dest, []) if d[2] != "yield" and not (d[2] == "call" and d[0] == call_block)]
+    if extra:
+        m = others_ok(extra)
+        if m is None:
+            return {}
+        out[dest] = m
+    changed = True
+    n = 0
+    while changed and n < 8:
+        changed = False
+        n += 1
+        for l, ds in body.defs().items():
+            if l in out or l <= body.argc:
+                continue
+            whole = [d for d in ds if d[2] in ("assign", "call") and not (d[2] == "assign" and d[3]["pl"]["p"])]
+            if not whole or len(whole) != len([d for d in ds if d[2] != "yield"]):
+                continue
+            from_call = []
+            others = []
+            for d in whole:
+                src = None
+                if d[2] == "assign" and d[3]["rv"]["k"] == "use":
+                    pl = core.op_place(d[3]["rv"]["o"])
+                    if pl is not None and not pl["p"]:
+                        src = pl["l"]
+                (from_call if src in out else others).append(d)
+            if not from_call:
+                continue
+            m = others_ok(others)
+            if m is None:
+                continue
+            out[l] = m or any(out[core.op_place(d[3]["rv"]["o"])["l"]] for d in from_call)
+            changed = True
+    return out
+
+
+def some_edge_of(prog, body, call_block, label="Some", union=False):
+    """(switch_block, target) edges taken when the result of the call in call_block is `label`: the arm of a match / if-let on the
+    result (or on a copy of it, also across a merge with values that are certainly the other variant), the Continue / Break edge of
+    `?` applied to it, or the matching edge of a test of `is_some()` / `is_none()` / `is_ok()` / `is_err()` applied to it.
+    At a merge a None / Err edge only counts when the call dominates the test, unless `union` asks for every edge on which the call
+    *or* one of the other, certainly-None / Err, sources produced the value."""
     dest = body.term(call_block)["dest"]["l"]
+    carriers = _carriers(body, dest, label, call_block) if label in OTHER else {dest: False}
     edges = []
     for s in range(len(body.blocks)):
         t = body.term(s)
         if t and t["k"] == "switch":
             info = switch_info(prog, body, s)
-            if info and info.get("src") is not None and info["src"]["l"] == dest and not [e for e in info["src"]["p"] if e[0] == "f"]:
+            if info and info.get("src") is not None and info["src"]["l"] in carriers and not [e for e in info["src"]["p"] if e[0] == "f"]:
+                merged = carriers[info["src"]["l"]]
+                if merged and not union and not body.dominates(call_block, s):
+                    continue
                 if label in info["edges"]:
                     edges.append((s, info["edges"][label]))
+    if label in TRY_LABEL:
+        for tb, tt in body.calls_to(r"ops::Try>::branch$"):
+            al = core.op_local(tt["args"][0]) if tt["args"] else None
+            if al not in carriers or tt.get("dest") is None:
+                continue
+            if carriers[al] and not union and not body.dominates(call_block, tb):
+                continue
+            bd = tt["dest"]["l"]
+            for s in range(len(body.blocks)):
+                t = body.term(s)
+                if t and t["k"] == "switch":
+                    info = switch_info(prog, body, s)
+                    if info and info.get("src") is not None and info["src"]["l"] == bd and not [e for e in info["src"]["p"] if e[0] == "f"]:
+                        if TRY_LABEL[label] in info["edges"]:
+                            edges.append((s, info["edges"][TRY_LABEL[label]]))
+    pos, neg = PREDICATES.get(label, (None, None))
+    if pos:
+        for rx, want_true in ((pos, True), (neg, False)):
+            for pb, pt in body.calls_to(rx):
+                if not pt["args"] or pt.get("dest") is None:
+                    continue
+                al = core.op_local(pt["args"][0])
+                # the receiver is a reference to (a copy of) the call's destination
+                seen = 0
+                while al is not None and al != dest and not (al in carriers and not carriers[al]) and seen < 6:
+                    ds = body.defs().get(al, [])
+                    if len(ds) != 1 or ds[0][2] != "assign" or ds[0][3]["pl"]["p"]:
+                        break
+                    rv = ds[0][3]["rv"]
+                    if rv["k"] == "ref" and not [e for e in rv["pl"]["p"] if e[0] != "d"]:
+                        al = rv["pl"]["l"]
+                    elif rv["k"] == "use":
+                        al = core.op_local(rv["o"]) if not (core.op_place(rv["o"]) or {}).get("p") else None
+                    else:
+                        break
+                    seen += 1
+                if al != dest and not (al in carriers and not carriers[al]):
+                    continue
+                sw = core.bool_test_of_call(body, pb)
+                if sw is not None:
+                    edges.append((sw[0], sw[1] if want_true else sw[2]))
     return edges
 
 
